@@ -44,6 +44,7 @@ inductive Op where
   | emitNone (h : HRes)           -- no event: the default event
   | hash (msg : List Byte) (h : HRes)      -- command text message, id = hash of the text
   | hashFrag (frags : List (List Byte)) (h : HRes)   -- the same with the message given in fragments
+  | hashNone                      -- dispatch by hash of an event that carries no message: must fail, nobody is invoked
   | reserve (w : Nat)             -- reserve a fresh request id (width class w) and activate it with a new registration
   | fini                          -- tear the dispatcher down
   | drop                          -- release the handler table through the generic array interface
@@ -177,6 +178,20 @@ def cmdIds (msg : List Byte) : List (Option Id) :=
     boundaries are -/
 def cmdIdsFrag (frags : List (List Byte)) : List (Option Id) := cmdIds frags.flatten
 
+/-- the id range `1..idRange w` of the width classes of `mpt_command_reserve` (bytes available for the id in a
+    message header; 0 = no id): `INT8_MAX`, `INT16_MAX`, `INT32_MAX/0x100`, `INT32_MAX`, `INT64_MAX/0x1000000`, … -/
+def idRange (w : Nat) : Nat :=
+  match w with
+  | 0 => 0
+  | 1 => 127
+  | 2 => 32767
+  | 3 => 8388607
+  | 4 => 2147483647
+  | 5 => 549755813887
+  | 6 => 140737488355327
+  | 7 => 36028797018963967
+  | _ => 9223372036854775807
+
 /- ---------- abstract state ---------- -/
 structure Spec where
   live : List (Id × Reg)     -- the handlers currently registered: id ↦ registration
@@ -194,6 +209,12 @@ def init (start : Start) : Spec :=
     regd := if start = .fb then [0] else [] }
 
 def lookup (sp : Spec) (id : Id) : Option Reg := (sp.live.find? (·.1 == id)).map (·.2)
+
+/-- how many of `k` reservations in a row (none of them released in between) must be served: one for every id of the
+    width class's range that no registered handler carries -/
+def reserveCount (sp : Spec) (w k : Nat) : Nat :=
+  let taken := ((sp.live.map (·.1)).eraseDups.filter fun i => decide (1 ≤ i.toNat ∧ i.toNat ≤ idRange w)).length
+  min k (idRange w - taken)
 
 /-- the handler an event with this id must reach: the registered one, else the fallback -/
 def target (sp : Spec) (id : Id) : Option Reg :=
@@ -326,6 +347,7 @@ def step (sp : Spec) (op : Op) (out : Out) : Option Spec :=
           | none => if sp.bi then sp.stepUnhandled sp.dflt none out else none
   | .hash msg h => (cmdIds msg).findSome? fun cid => sp.stepHashId msg cid h out
   | .hashFrag frags h => (cmdIdsFrag frags).findSome? fun cid => sp.stepHashId frags.flatten cid h out
+  | .hashNone => if out.ret = .val failDefault && out.log == [] then some sp else none
   | .reserve _ =>
     let r := sp.next
     match out.ret with
